@@ -26,21 +26,29 @@ RULE = ("file_formats[bin|raw|bk_wav|bk_turbo_wav] of the real code on: an image
         "make_xxx inside `.include`d files (depth 1-2, sub-directories, relative/absolute/non-normal operands) x working directory "
         "{source dir, parent, sibling, scratch root}, sources with 2-4 make_xxx directives (several of the same container with different paths and explicit/inferred tape names, "
         "mixed containers, the same path twice, together with -o), "
+        "tape names under every output charset of {bk, koi8-r, cp1251, cp866, utf-8, utf-16-le, utf-16 (BOM), latin-1, ascii} (Compiler(output_charset=...)): names over ASCII, "
+        "Russian, Latin-1, 3-byte and astral (4-byte) alphabets and their mixtures built to ENCODE to 2..32 bytes with every length around 16 (15, 16, 17, 18) "
+        "and names of 15/16/17 CHARACTERS, given explicitly or inferred from a path (.wav/.WAV/no extension, behind directories) or from the source name; "
+        "the expectation (encoded name space-padded to 16 bytes; more than 16 BYTES = too-long-string; not encodable = invalid-character; nothing else) is judged "
+        "in coqc (Run.C13Oracle.prop_otcase) on the name encoded by CPython's own codec, and the same names through `python -m pdpy11 --charset <cs>` with the WAV files demodulated, "
         "and real `python -m pdpy11` runs in scratch directories for every output selector and the full cross product "
         "{-o bin/raw/other/stdout, none; last components '-', '-.ext', '-x', 'x-', '.bin', dotted, upper-case behind no / ./ / sub/ / absolute directory part} x {--implicit-bin} x {no / one / several make_xxx} x {--lst} (files found = files expected and nothing else, "
         "contents decoded by the Spec readers).  non-trivial = distinct (container, base, image, name) with a non-empty image, "
-        "distinct path triple, distinct directive case, distinct CLI scenario")
+        "distinct path triple, distinct directive case, distinct (directive, name source, name, charset) whose encoded length differs from its character count, distinct CLI scenario")
 LEVEL_TEXT = ("Coq theorems over tables regenerated from bk_wav.py/formats.py on every run: raw identity, bin layout incl. struct.error "
               "partiality, RIFF well-formedness for every image, checksum = end-around-carry fold for every byte list, bit-level "
               "structure of encode_data_bits, demodulator round trip for every image of every length (normal and turbo), tape-name "
-              "padding, default-path derivation.  Paths actually written are tied by CLI correspondence.")
+              "padding (pad_name over the ENCODED bytes of the name), default-path derivation.  Paths actually written are tied by CLI correspondence; "
+              "the encoding of a name under --charset is CPython's codec and is tied by correspondence only (tape-name stream).")
 LEVEL_NOTE = ("Trusted: Coq kernel + vm_compute, tools/gens/gen_bkwav.py, the harness, Spec/Riff.v Spec/BkTape.v Spec/BinFile.v, CPython "
-              "struct/os.path. Print Assumptions: closed under the global context for every theorem.")
+              "struct/os.path/codecs (str.encode of the output charset states the expected tape-name bytes; pdpy11's own 'bk' charset is "
+              "restated as KOI8-R on ASCII + Russian letters, C14). Print Assumptions: closed under the global context for every theorem.")
 TECHNIQUE = "Coq proof over regenerated envelopes + model/implementation correspondence + Spec readers on real output files"
 ASSUME = ["Python's bytes, struct.pack, os.path (posixpath) and open() behave as documented",
           "Spec/BkTape.v states the BK-0010 tape rules (pulse classes relative to the pilot, >=512 pilot periods, marker, LSB first); "
           "the turbo format is judged by high-run widths only",
-          "file names and tape names in the path cases are printable ASCII (str.lower / bk charset identity on ASCII, C14)",
+          "file names and tape names in the path, directive and CLI path cases are printable ASCII (str.lower / bk charset identity on ASCII, C14); "
+          "non-ASCII tape names are covered by the tape-name stream over the fixed alphabets and 9 charsets, where CPython's codecs define the encoding",
           "hash-compared large outputs: equal (length, sum, sum of prefix sums, sum of those) is taken as equal bytes"]
 TRUSTED = ["tools/gens/gen_bkwav.py (translator plug-in)", "Run/C13Oracle.v expand_rep/hash glue and tools/props/c13.py compress/pyhash",
            "pathlib/os.path.realpath used to state where a file is expected"]
@@ -161,8 +169,9 @@ def c13_resolve(rel, base):
                                    "dir": os.path.dirname(base), "norm": os.path.normpath(rel)})
 
 
-def c13_emitted(files, fs=None):
-    """assemble and return Compiler.emitted_files even when the assembly failed; fs: path -> text of .include'd files"""
+def c13_emitted(files, fs=None, charset="bk"):
+    """assemble and return Compiler.emitted_files even when the assembly failed; fs: path -> text of .include'd files;
+    charset: the output charset (--charset)"""
     m = impl.load()
     reports, parser, compiler = m["reports"], m["parser"], m["compiler"]
     impl.reset_global_state()
@@ -178,7 +187,7 @@ def c13_emitted(files, fs=None):
         try:
             with reports.handle_reports(handler):
                 parsed = [parser.parse(fn, text) for fn, text in files]
-                comp = compiler.Compiler(output_charset="bk")
+                comp = compiler.Compiler(output_charset=charset)
                 base, code = comp.compile_and_link_files(parsed)
             res.update(outcome="ok", base=base, code=bytes(code).hex())
         except reports.UnrecoverableError:
@@ -451,17 +460,141 @@ def directive_usable(c):
 
 
 # ---------------------------------------------------------------------------------------------
+# tape names under an output charset: non-ASCII names whose length in BYTES differs from their length in characters
+CHARSETS = ["bk", "koi8-r", "cp1251", "cp866", "utf-8", "utf-16-le", "utf-16", "latin-1", "ascii"]
+ALPHABETS = {"ascii": "ABCXYZ019 _", "cyr": "\u043f\u0440\u0438\u0432\u0435\u0442\u043a\u0416\u0429\u042f\u0444\u042b",
+             "lat1": "\u00e9\u00fc\u00f1\u00c0\u00df", "bmp3": "\u20ac\u2713\u65e5\u672c", "astral": "\U0001f600\U0001d11e"}
+TAPE_MODES = ["explicit", "path.wav", "path.WAV", "path-noext", "source"]
+
+
+def tape_codec(cs):
+    """the codec that states what the charset means, independently of pdpy11: CPython's own; for pdpy11's 'bk' charset
+    KOI8-R, with which it coincides on ASCII and the Russian letters other than io (C14) -- the alphabets hold no others"""
+    return "koi8-r" if cs == "bk" else cs
+
+
+def tape_encode(shown, cs):
+    try:
+        return shown.encode(tape_codec(cs))
+    except UnicodeEncodeError:
+        return None
+
+
+def gen_tape_cases(rng, tier):
+    cases, seen = [], set()
+
+    def add(d, mode, name, cs, why):
+        if mode != "explicit" and (not name or name != name.strip() or name.lower().endswith((".wav", ".mac"))):
+            mode = "explicit"
+        key = (d, mode, name, cs)
+        if key in seen:
+            return
+        seen.add(key)
+        path = tape = None
+        filename = "/w/src/prog.mac"
+        if mode == "explicit":
+            path, tape = rng.choice(["out.wav", "sub/x", "/abs/y.WAV"]), name
+        elif mode == "path.wav":
+            path = rng.choice(["", "sub/", "/abs/dir/", "../"]) + name + ".wav"
+        elif mode == "path.WAV":
+            path = name + rng.choice([".WAV", ".Wav"])
+        elif mode == "path-noext":
+            path = rng.choice(["", "sub/"]) + name
+        else:
+            filename = "/w/src/" + name + rng.choice([".mac", ".MAC"])
+        cases.append({"type": "tape", "dir": d, "mode": mode, "name": name, "charset": cs, "path": path, "tape": tape,
+                      "filename": filename, "why": why})
+
+    def build(alpha, cs, target):
+        """a name over the alphabet whose encoding is `target` bytes long if that can be hit (else close to it)"""
+        best = None
+        for _ in range(40):
+            name = ""
+            while True:
+                enc = tape_encode(name, cs)
+                if enc is None or len(enc) >= target:
+                    break
+                name += rng.choice(alpha)
+            if best is None or (enc is not None and len(enc) == target):
+                best = name
+            if enc is not None and len(enc) == target:
+                break
+        return best
+
+    mixes = [("cyr", ALPHABETS["cyr"]), ("cyr+ascii", ALPHABETS["cyr"] + ALPHABETS["ascii"]), ("lat1", ALPHABETS["lat1"] + "ab"),
+             ("bmp3", ALPHABETS["bmp3"] + "a"), ("astral", ALPHABETS["astral"] + "z"), ("ascii", ALPHABETS["ascii"]),
+             ("all", "".join(ALPHABETS.values()))]
+    targets = [2, 9, 12, 15, 16, 17, 18, 24, 32] if tier == "quick" else [1, 2, 3, 5, 8, 9, 11, 12, 13, 14, 15, 16, 17, 18, 19, 20, 24, 31, 32, 33, 48]
+    k = 0
+    for cs in CHARSETS:
+        for mname, alpha in mixes:
+            encodable = tape_encode(alpha, cs) is not None
+            for t in (targets if encodable else targets[:2]):
+                for _ in range(1 if tier == "quick" else 3):
+                    k += 1
+                    add(["make_wav", "make_turbo_wav"][k % 2], TAPE_MODES[(k // 2) % len(TAPE_MODES)], build(alpha, cs, t), cs, mname)
+        # the same length counted in CHARACTERS: 15, 16, 17 letters
+        for n in (15, 16, 17):
+            for mname, alpha in mixes[:2] + mixes[5:6]:
+                k += 1
+                add(["make_wav", "make_turbo_wav"][k % 2], TAPE_MODES[k % len(TAPE_MODES)], "".join(rng.choice(alpha) for _ in range(n)).strip() or "A" * n, cs, mname + ":chars")
+        add("make_wav", "explicit", "", cs, "empty")
+    return cases
+
+
+def tape_source(c):
+    return ".word 1\n" + directive_line(c["dir"], c["path"], c["tape"]) + "\n"
+
+
+def run_tape_cases(cases):
+    jobs = [(([(c["filename"], tape_source(c))],), {"charset": c["charset"]}) for c in cases]
+    outs = impl.pmap("c13_emitted", jobs, chunksize=8)
+    for c, o in zip(cases, outs):
+        c["obs"] = o
+
+
+TAPE_ERRORS = (["error", "too-long-string"], ["error", "invalid-character"])
+
+
+def tape_usable(c):
+    o = c["obs"]
+    if o.get("outcome") not in ("ok", "failed") or len(o.get("emitted") or []) != 1:
+        return False
+    e = o["emitted"][0]
+    if e[0] != DIR_KIND[c["dir"]] or len(e) < 3 or not isinstance(e[2], str):
+        return False
+    return not [d for d in o["diags"] if d[0] != "warning" and d not in TAPE_ERRORS]
+
+
+def tape_term(c, model):
+    o = c["obs"]
+    enc = tape_encode(c["name"], c["charset"])
+    flag = lambda d: "true" if d in o["diags"] else "false"
+    t = ("{| ot_enc := %s; ot_obs_name := %s; ot_obs_long := %s; ot_obs_char := %s; ot_obs_failed := %s |}"
+         % (opt(C.zlist(enc)) if enc is not None else "None", opt(C.zlist(bytes.fromhex(o["emitted"][0][2]))),
+            flag(TAPE_ERRORS[0]), flag(TAPE_ERRORS[1]), "true" if o["outcome"] == "failed" else "false"))
+    return ("CTape " if model else "OTape ") + t
+
+
+def tape_input(c):
+    enc = tape_encode(c["name"], c["charset"])
+    return {"type": "tape", "dir": c["dir"], "mode": c["mode"], "name": c["name"], "charset": c["charset"], "path": c["path"], "tape": c["tape"],
+            "filename": c["filename"], "source": tape_source(c), "name_codepoints": ["U+%04X" % ord(ch) for ch in c["name"]],
+            "name_encoded_hex": enc.hex() if enc is not None else "not encodable in this charset", "why": c.get("why", "")}
+
+
+# ---------------------------------------------------------------------------------------------
 # command-line scenarios
 def gen_cli_cases(rng, tier):
     """each scenario: cwd (relative to the scratch root), sources [(relpath from root, [(dir, path, tape)])],
     infile spelling (abs / rel), outfile, implicit_bin, dirs to create"""
     sc = []
 
-    def add(sources, outfile=None, implicit=False, cwd="proj", spell="rel", base=0o1000, note="", lst=False, inc=()):
+    def add(sources, outfile=None, implicit=False, cwd="proj", spell="rel", base=0o1000, note="", lst=False, inc=(), charset=None):
         # inc: [child index, parent index, operand as written]: sources[child] is not an infile but `.include`d
         # (last line) by sources[parent]; parents come before their children, so list order = assembly order
         sc.append({"type": "cli", "cwd": cwd, "sources": sources, "outfile": outfile, "implicit": implicit, "spell": spell,
-                   "base": base, "note": note, "lst": lst, "inc": [list(x) for x in inc]})
+                   "base": base, "note": note, "lst": lst, "inc": [list(x) for x in inc], "charset": charset})
 
     S = "proj/src/prog.mac"
     # full cross product of the output selectors: -o kind x --implicit-bin x directives x --lst
@@ -564,6 +697,22 @@ def gen_cli_cases(rng, tier):
     add([("proj/src/one.mac", [("make_wav", None, None), ("make_wav", "x.wav", "ONE")]), ("proj/lib/two.mac", [("make_wav", None, None), ("make_wav", "x.wav", "TWO")])])
     add([(S, [("make_wav", "one.wav", "FIRST"), ("make_wav", "two.wav", "0123456789ABCDEFG")])])
 
+    # --charset: the 16-byte limit counts BYTES of the name encoded in the output charset (explicit names; the paths stay ASCII)
+    cyr = "\u043f\u0440\u0438\u0432\u0435\u0442\u0438\u043a\u0438"       # 9 Russian letters
+    j = 0
+    for cs in [None, "koi8-r", "cp1251", "utf-8", "utf-16-le", "utf-16", "latin-1", "ascii"]:
+        names = ["NAME", cyr[:6], cyr[:8], cyr, (cyr + cyr)[:16], (cyr + cyr)[:17], "ab" + cyr[:7], "caf\u00e9 \u00fc", "\u20ac\u65e5\u672c\u2713\u20ac", "\u20ac\u65e5\u672c\u2713\u20acX",
+                 "\U0001f600\U0001d11e\U0001f600\U0001d11e"]
+        if tier == "quick":
+            names = [n for i, n in enumerate(names) if (i + j) % 2 == 0 or n in (cyr[:6], cyr[:8])]
+        for nm in names:
+            if tape_encode(nm, cs or "bk") is None:
+                continue            # a name the charset cannot carry: judged at directive level (tape cases)
+            j += 1
+            d = ["make_wav", "make_turbo_wav"][j % 2]
+            add([(S, [(d, "tape.wav", nm)] + ([("make_bin", None, None)] if j % 5 == 0 else []))], charset=cs, note="charset",
+                cwd=["proj", "proj/src", ""][j % 3], spell=["rel", "abs"][j % 2])
+
     def multi():
         k = rng.choice([2, 2, 3, 3, 4])
         main = rng.choice(list(DIRS))
@@ -639,7 +788,7 @@ def run_cli_case(s_, rootbase):
         for k, (rel, dirs) in enumerate(s_["sources"]):
             ap = os.path.join(root, rel)
             text = cli_source_text(s_, k, dirs, root)
-            with open(ap, "w") as f:
+            with open(ap, "w", encoding="utf-8") as f:
                 f.write(text)
             files.append((ap, text))
         before = {}
@@ -659,6 +808,8 @@ def run_cli_case(s_, rootbase):
             argv.append("--implicit-bin")
         if s_.get("lst"):
             argv.append("--lst")
+        if s_.get("charset"):
+            argv += ["--charset", s_["charset"]]
         env = dict(os.environ, PYTHONPATH=C.REPO, PYTHONDONTWRITEBYTECODE="1")
         try:
             p = subprocess.run(argv, cwd=cwd, env=env, stdout=subprocess.PIPE, stderr=subprocess.PIPE, timeout=60)
@@ -704,9 +855,10 @@ def cli_expected(s_, o):
             name = None
             if "wav" in d:
                 shown = t if t is not None else (target.name[:-4] if target.name[-4:].lower() == ".wav" else target.name)
-                enc = shown.encode("ascii")
-                if len(enc) > 16:
+                enc = tape_encode(shown, s_.get("charset") or "bk")
+                if enc is None or len(enc) > 16:
                     fail = True
+                    enc = b""
                 name = enc.ljust(16, b" ")
             exp.append((str(target), DIR_KIND[d], name))
     stdout_kind = None
@@ -749,12 +901,19 @@ def cli_image(s_, o):
     return r
 
 
+def tape_str_term(t, cs):
+    """the tape name as the model's string: printable ASCII as it is, else the bytes of its encoding in the output charset"""
+    if all(32 <= ord(ch) < 127 for ch in t):
+        return cstr(t)
+    return "(bstr %s)" % C.zlist(tape_encode(t, cs or "bk"))
+
+
 def cli_term(s_, o, model):
     exp, stdout_kind = o["expected"], o["expected_stdout"]
     srcs = []
     parent = {c: (par, operand) for c, par, operand in s_.get("inc", [])}
     for k, (infile, (rel, dirs)) in enumerate(zip(o["infiles"], s_["sources"])):
-        ds = "; ".join("(%s, %s, %s)" % (DIRS[d], opt(cstr(_abs(o["root"], p))) if p is not None else "None", opt(cstr(t)) if t is not None else "None")
+        ds = "; ".join("(%s, %s, %s)" % (DIRS[d], opt(cstr(_abs(o["root"], p))) if p is not None else "None", opt(tape_str_term(t, s_.get("charset"))) if t is not None else "None")
                        for d, p, t in dirs)
         chain, j = [], k          # the `.include` operands leading from an infile to this file
         while j in parent:
@@ -800,7 +959,8 @@ def run_cli_cases(cases, seed):
             continue
         included = cli_included(s_)
         img = c13_emitted([f for k, f in enumerate(o["files"]) if k not in included],
-                          fs={f[0]: f[1] for k, f in enumerate(o["files"]) if k in included} if included else None)
+                          fs={f[0]: f[1] for k, f in enumerate(o["files"]) if k in included} if included else None,
+                          charset=s_.get("charset") or "bk")
         o["image_outcome"] = img["outcome"]
         if img["outcome"] == "ok":
             o["image"] = (img["base"], bytes.fromhex(img["code"]))
@@ -859,6 +1019,7 @@ def collect(rep, tier, seed, model):
     rcases = gen_resolve_cases(rng, tier)
     dcases = gen_directive_cases(rng, tier)
     ccases = gen_cli_cases(rng, tier)
+    tcases = gen_tape_cases(random.Random(seed * 7919 + 13), tier)
     if not model:
         # oracle-only: needs the bytes themselves; keep the literals moderate
         fcases = [c for c in fcases if len(c["code"]) <= 1100]
@@ -867,6 +1028,7 @@ def collect(rep, tier, seed, model):
         rcases = []
     run_format_cases(fcases)
     run_directive_cases(dcases)
+    run_tape_cases(tcases)
     run_cli_cases(ccases, seed)
     outs = impl.pmap("c13_resolve", [((c["rel"], c["base"]), {}) for c in rcases], chunksize=64)
     for c, o in zip(rcases, outs):
@@ -906,10 +1068,24 @@ def collect(rep, tier, seed, model):
             continue
         items.append((2, directive_term(c, model)))
         owners.append(("directive", c))
+    for c in tcases:
+        rep.add_eval()
+        rep.count("tape:%s:%s" % (c["charset"], c["mode"]))
+        enc = tape_encode(c["name"], c["charset"])
+        if enc is not None and len(enc) != len(c["name"]):
+            rep.nontrivial(("t", c["dir"], c["mode"], c["name"], c["charset"]))
+        if not tape_usable(c):
+            rep.violate("tape-outcome:%s:%s:%s:%s" % (c["dir"], c["mode"], c["charset"], c["name"]),
+                        "a make_wav/make_turbo_wav directive did not register exactly one output of its container (or failed for another "
+                        "reason than a too long / unencodable tape name)", tape_input(c), impl=c["obs"],
+                        replay="assemble the recorded source with Compiler(output_charset=charset) and read Compiler.emitted_files")
+            continue
+        items.append((2, tape_term(c, model)))
+        owners.append(("tape", c))
     for s_ in ccases:
         rep.add_eval()
         rep.count("cli")
-        rep.nontrivial(("c", s_["cwd"], str(s_["sources"]), s_["outfile"], s_["implicit"], s_["spell"], s_.get("lst")))
+        rep.nontrivial(("c", s_["cwd"], str(s_["sources"]), s_["outfile"], s_["implicit"], s_["spell"], s_.get("lst"), s_.get("charset")))
         if not cli_usable(s_):
             rep.violate("cli-run:%d" % s_["idx"], "the command-line run did not finish / harness problem", cli_input(s_, s_["obs"]), impl=str(s_["obs"])[:500])
             continue
@@ -957,22 +1133,37 @@ def collect(rep, tier, seed, model):
                             "the output registered by the directive contradicts C13 (default path = source name with .mac replaced; tape name = "
                             "given name or file base name, space-padded to 16, longer is an error)", inp, impl=c["obs"],
                             replay="assemble '.word 1 / <directive>' and read Compiler.emitted_files")
+        elif kind == "tape":
+            if code & 1:
+                rep.disagree("tape name under an output charset: Model.OutPath.pad_name on the encoded name vs Compiler.emitted_files", tape_input(c), impl=c["obs"])
+            if code & 2:
+                enc = tape_encode(c["name"], c["charset"])
+                rep.violate("tape:%s:%s:%s:%s" % (c["dir"], c["mode"], c["charset"], c["name"]),
+                            "the tape name registered under output charset %r contradicts C13: the name %r (%s) must be %s"
+                            % (c["charset"], c["name"], "%d characters, %d bytes encoded" % (len(c["name"]), len(enc)) if enc is not None else "not encodable",
+                               "refused with an invalid-character error" if enc is None else
+                               ("refused with a too-long-string error" if len(enc) > 16 else "accepted and space-padded to 16 bytes")),
+                            tape_input(c), impl=c["obs"],
+                            replay="assemble the recorded source with Compiler(output_charset=charset) (= --charset) and read Compiler.emitted_files")
         else:
             if code & 1:
                 rep.disagree("command line: Model.OutPath.cli_outputs + file formats vs files written by `python -m pdpy11`", cli_input(c, c["obs"]))
             if code & 2:
-                rep.violate("cli:%s:o=%s:implicit=%s:lst=%s:cwd=%s" % (c["sources"], c["outfile"], c["implicit"], c.get("lst"), c["cwd"]),
+                rep.violate("cli:%s:o=%s:implicit=%s:lst=%s:cwd=%s%s" % (c["sources"], c["outfile"], c["implicit"], c.get("lst"), c["cwd"],
+                                                                     ":charset=" + c["charset"] if c.get("charset") else ""),
                             "files written by `python -m pdpy11` differ from the files the property expects, or their contents do not decode to the image",
                             cli_input(c, c["obs"]), replay="python -m pdpy11 <argv> in a scratch tree")
-    return fcases, dcases, ccases
+    return fcases, dcases, ccases, tcases
 
 
 def explore(rep, br, tier, seed):
-    fcases, dcases, ccases = collect(rep, tier, seed, model=True)
+    fcases, dcases, ccases, tcases = collect(rep, tier, seed, model=True)
     rep.exhaustive_parts.append("every image length 0-300 for each of the four containers; every directive x source-name form x path form of the fixed lists")
     for c in (fcases[2], fcases[len(fcases) // 2]):
         rep.sample({"input": describe_format(c), "impl": {k: v for k, v in c["obs"].items() if k != "out"}})
     rep.sample({"directive": directive_line(dcases[3]["dir"], dcases[3]["path"], dcases[3]["tape"]), "source": dcases[3]["filename"], "emitted": dcases[3]["obs"].get("emitted")})
+    tc = next((c for c in tcases if c["charset"] == "utf-8" and c["mode"] != "explicit"), tcases[0])
+    rep.sample({"tape-name case": tape_input(tc), "emitted": tc["obs"].get("emitted"), "diags": tc["obs"].get("diags")})
     s_ = ccases[3]
     rep.sample({"argv": s_["obs"].get("argv"), "found": sorted(s_["obs"].get("found", {})), "exit": s_["obs"].get("exit")})
 
@@ -1016,6 +1207,13 @@ def replay(data):
         if not directive_usable(c):
             return False
         return not (evaluate([(1, directive_term(c, False))], False)[0] & 2)
+    if t == "tape":
+        c = dict(inp)
+        run_tape_cases([c])
+        print("replay:", repr(tape_source(c)), "in", c["filename"], "charset", c["charset"], "->", c["obs"].get("emitted"), c["obs"].get("diags"))
+        if not tape_usable(c):
+            return False
+        return not (evaluate([(1, tape_term(c, False))], False)[0] & 2)
     if t == "cli":
         s_ = dict(inp["scenario"])
         s_["bytes"] = bytes.fromhex(s_["bytes"])
